@@ -57,8 +57,17 @@ def run(chk):
     chk.validate('inline-pa', 'Trace_MM', 'Trace_MM.cfg', irecs, driver='mm', jobs=12)
     # helpers the aligners build on (interleave, sample_random_mapping, ...): Utils.tla
     chk.mc('layout-helpers', 'MC_Utils', 'MC_Utils.cfg', workers=8)
+    # generalised reshape: the exhaustive instance MC_Reshape is the case set (TLC dump replayed into pb_bss.utils.reshape)
+    from ..casegen import reshape_cases
+    states, res = core.tlc_dump_states('MC_Reshape', 'MC_Reshape_q.cfg' if q else 'MC_Reshape.cfg', workers=8)
+    chk.parts.append(dict(part='reshape-instance', kind='model-check', module='MC_Reshape', distinct=res.distinct,
+                          invariants=['ValidInv', 'RearrangementInv', 'InverseInv', 'FlattenInv']))
+    chk.states += res.distinct
+    rcases = reshape_cases(states, stride=7 if q else 1)
+    rrecs = core.run_driver('utils', tier=chk.tier, seed=chk.seed, cases=rcases)
+    chk.validate('reshape', 'Trace_Utils', 'Trace_Utils.cfg', rrecs, driver='utils', jobs=8, growth=True)
     urecs = core.run_driver('utils', tier=chk.tier, seed=chk.seed)
-    chk.validate('layout-helpers', 'Trace_Utils', 'Trace_Utils.cfg', urecs, driver='utils', jobs=6)
+    chk.validate('layout-helpers', 'Trace_Utils', 'Trace_Utils.cfg', urecs, driver='utils', jobs=6, growth=True)
     chk.assumptions = ['row identity of masks is decided by byte equality of rows (driver)',
                        'scores of float matrices enter TLC as dense ranks (greedy) / exact Fraction gaps (optimal)']
 
